@@ -111,12 +111,14 @@ def sorted_rec(t):
 
 # ---------------------------------------------------------------- generator for mode M
 
-NAMES = ["a", "a0", "a-", "b", "B", "c", "c.txt", "d", "dir", "e", "zz", "Z", "0", "_x", "k1", "k10", "k2"]
+NAMES = [b"a", b"a0", b"a-", b"b", b"B", b"c", b"c.txt", b"d", b"dir", b"e", b"zz", b"Z", b"0", b"_x", b"k1", b"k10", b"k2",
+         # names whose order changes under escaping (tab -> \\t, 0xff -> \\xff, backslash, quote)
+         b"x\ty", b"xAy", b"q\xffz", b"qzz", b"x\\y", b"x]y", b"x\"y", b"x#y"]
 
 
 def gen_tree(rng, depth, pool, tagc, mt):
     t = []
-    for name in sorted(rng.sample(pool, rng.randint(0, min(len(pool), 5))), key=lambda s: s.encode()):
+    for name in sorted(rng.sample(pool, rng.randint(0, min(len(pool), 5)))):
         r = rng.random()
         kind = 1 if (r < 0.35 and depth > 0) else 0 if r < 0.75 else 2 if r < 0.9 else 3
         mtime = rng.choice(mt)
@@ -131,6 +133,8 @@ def gen_tree(rng, depth, pool, tagc, mt):
 def gen_m_case(rng):
     k = rng.choice([0, 1, 1, 2, 2, 2, 3, 3, 4, 6])
     pool = rng.sample(NAMES, rng.choice([2, 3, 4, 6]))
+    if rng.random() < 0.3:      # a pair whose order flips under escaping
+        pool = sorted(set(pool + rng.choice([[b"x\ty", b"xAy"], [b"q\xffz", b"qzz"], [b'x"y', b"x#y"]])))
     mt = rng.choice([[5], [5, 6], [0, 5, 6, 7], [1, 2, 3, 4, 5, 6, 7, 8, 9]])
     tagc = [10]
     ts = [gen_tree(rng, rng.choice([0, 1, 2, 3]), pool, tagc, mt) for _ in range(k)]
@@ -178,7 +182,7 @@ def run(ctx):
     nontriv = set()
 
     # ------------------------------------------------------------ merge: model vs tree::merge_trees
-    nm = (4000 if th else 500) * wide
+    nm = (12000 if th else 1500) * wide
     mcases = []
     corpus = os.path.join(ctx.pdir, "corpus.txt")
     if os.path.exists(corpus):
@@ -188,18 +192,18 @@ def run(ctx):
                 toks = ln.split()
                 mode, k = int(toks[1]), int(toks[2]); i = 3; ts = []
                 for _ in range(k):
-                    t, i = parse_tree(toks, i); ts.append(map_names(t, lambda h: bytes.fromhex(h).decode()))
+                    t, i = parse_tree(toks, i); ts.append(map_names(t, lambda h: bytes.fromhex(h)))
                 mcases.append((mode, ts))
     while len(mcases) < nm:
         mcases.append(gen_m_case(rng))
-    hexn = lambda s: s.encode().hex()
+    hexn = lambda s: s.hex()
     ilines = ["M %d %d %s" % (mode, len(ts), " ".join(fmt_tree(t, hexn) for t in ts)) for mode, ts in mcases]
     iout = run_lines(impl, ilines)
     mlines, ranks = [], []
     for mode, ts in mcases:
         ns = set()
         for t in ts: all_names(t, ns)
-        order = sorted(ns, key=lambda s: s.encode())
+        order = sorted(ns)
         rk = {n: i for i, n in enumerate(order)}
         ranks.append(order)
         for s in (0, 1):
@@ -210,7 +214,7 @@ def run(ctx):
         if not io.startswith("ok"):
             viol.append(("tree::merge_trees fails on well-formed trees: " + io.split()[0], ilines[ci], io, None)); continue
         rt, _ = parse_tree(io.split()[1:], 0)
-        rt = map_names(rt, lambda h: bytes.fromhex(h).decode() if h != "-" else "")
+        rt = map_names(rt, lambda h: bytes.fromhex(h) if h != "-" else b"")
         e = oracle_merge(mode, ts, rt, st)
         for k_, v in st.items(): hist["M_" + k_] = hist.get("M_" + k_, 0) + v
         hist["M_k=%d" % len(ts)] = hist.get("M_k=%d" % len(ts), 0) + 1
@@ -242,7 +246,7 @@ def run(ctx):
 
     # ------------------------------------------------------------ e2e
     def seeds(n): return [rng.randrange(1, 2 ** 40) for _ in range(n)]
-    nC, nG, nW, nR = ((30, 60, 60, 40) if th else (5, 10, 10, 8))
+    nC, nG, nW, nR = ((80, 300, 300, 240) if th else (12, 40, 40, 32))
     nC, nG, nW, nR = nC * wide, nG * wide, nW * wide, nR * wide
     elines = []
     for i, s in enumerate(seeds(nC)):
@@ -259,7 +263,7 @@ def run(ctx):
         c = rp["witness"].get("case", "")
         elines = [c] if c and c[0] in "CGWR" else []
     eout = []
-    per = 6
+    per = 20
     for i in range(0, len(elines), per):
         eout += run_lines(impl, elines[i:i + per], timeout=1200)
     glines = []
@@ -282,7 +286,7 @@ def run(ctx):
             e = oracle_merge(0, ts, res, st)
             wf = all(sorted_rec(t) for t in ts)
             for k_, v in st.items(): hist["G_" + k_] = hist.get("G_" + k_, 0) + v
-            hist["G_inputs_sorted_by_escaped_name" if wf else "G_inputs_NOT_sorted_by_escaped_name"] = hist.get("G_inputs_sorted_by_escaped_name" if wf else "G_inputs_NOT_sorted_by_escaped_name", 0) + 1
+            hist["G_inputs_sorted_by_raw_name" if wf else "G_inputs_NOT_sorted_by_raw_name"] = hist.get("G_inputs_sorted_by_raw_name" if wf else "G_inputs_NOT_sorted_by_raw_name", 0) + 1
             if st.get("clash"): nontriv.add(ln)
             if d.get("check") != "1" or d.get("dump_failures") != "0":
                 viol.append(("merged snapshot is not intact (check / dump)", ln, segs[0] + " " + segs[-1], None))
